@@ -9,8 +9,14 @@ NT     == Len(Traces)
 ASSUME \A i \in 1..NT : TLCSet(i, 0)
 Chk(nm, c) == IF c THEN TRUE ELSE PrintT(<<"MISMATCH", Traces[tid].tid, l, nm>>) /\ FALSE
 TInit == tid \in 1..NT /\ l = 1
+(* the self-shielding factor a photoreaction law multiplies with is interpolated from a table: every axis search of the generated
+   function must be able to reach the LAST cell of the axis it walks (bound = nodes - 2; a shorter search extrapolates from the wrong
+   cell for large arguments, a longer one reads past the table) *)
+TTable ==
+  /\ l = 1 /\ l' = 2 /\ UNCHANGED tid /\ Traces[tid].fmt = "table"
+  /\ Chk("ShieldingTableSearchCoversItsAxis", Traces[tid].obs.bound = Traces[tid].obs.nodes - 2)
 TCase ==
-  /\ l = 1 /\ l' = 2 /\ UNCHANGED tid
+  /\ l = 1 /\ l' = 2 /\ UNCHANGED tid /\ Traces[tid].fmt # "table"
   /\ LET t == Traces[tid]
          law == Law(t.fmt, t.code, t.a, t.b, t.c, t.zb, t.zc, t.sh)
      IN IF law = <<"refused">>
@@ -19,7 +25,7 @@ TCase ==
                /\ Chk("Rendered", ~t.obs.refused)
                /\ Chk("ValidC", t.obs.valid)
                /\ Chk("Law", t.obs.tree = law)
-TSpec == TInit /\ [][TCase]_<<tid, l>>
+TSpec == TInit /\ [][TCase \/ TTable]_<<tid, l>>
 Track == TLCSet(tid, IF l > TLCGet(tid) THEN l ELSE TLCGet(tid))
 Verdicts == \A i \in 1..NT : PrintT(<<"VERDICT", Traces[i].tid, TLCGet(i), 2>>)
 =============================================================================
